@@ -2,7 +2,7 @@
 (* Code -> spec direction for C06.  The harness builds random worlds (IOEnv.WORLDS: one JSON record per world,
    {"world","root","nodes"}) and sends random, deeper request paths plus every file and directory of each
    world under its spellings to the real handlers, logging one record per call (IOEnv.TRACE:
-   {"w","h","route","uri","st","id","ct","loc","canary"}; h = serve_dir | directory | file_path | serve_file).  Every record must be an answer the property admits
+   {"w","h","route","uri","q","st","id","ct","ctb","loc","canary","panic","growth"}; h = serve_dir | directory | file_path | serve_file).  Every record must be an answer the property admits
    (Conforms against Expect, the same operators TLC used on the bounded space) and must be confined; every
    logged world must be well-formed and the handler model must satisfy the positive half and the redirect /
    index rule on it (so the random worlds are also model-checked, not only replayed). *)
@@ -18,7 +18,8 @@ VARIABLE l
 tvars == <<path, l>>
 Chunk == 500
 
-Got(r) == [st |-> r.st, id |-> r.id, ct |-> r.ct, loc |-> r.loc, canary |-> r.canary]
+\* strict reading (today's choices): a record it rejects is a SPEC-DRIFT note unless the statement rejects it too
+Got(r) == [st |-> r.st, id |-> r.id, ct |-> r.ct, ctb |-> r.ctb, loc |-> r.loc, canary |-> r.canary \/ r.panic]
 RecOk(r) ==
   LET w == TWorlds[r.w] IN
   IF r.h = "serve_file"
@@ -29,6 +30,15 @@ RecOk(r) ==
        /\ LET rel == Drop(r.uri, Len(pre)) IN
           /\ Conforms(Expect(r.h, w, rel), r.uri, Got(r))
           /\ ConfinedAnswer(w, Got(r))
+\* the statement of the property (StaticFs 3e).  serve_file is not named by the statement and the records taken through a
+\* real App (growth) depend on the connection machinery of other properties: for those only "no bytes from outside".
+JGot(r) == [st |-> r.st, id |-> r.id, ct |-> r.ct, ctb |-> r.ctb, loc |-> r.loc, canary |-> r.canary]
+Judged(r) ==
+  LET w == TWorlds[r.w] IN
+  IF r.h = "serve_file" \/ r.growth THEN ~r.canary
+  ELSE LET pre == IF r.h = "file_path" THEN <<SLASH>> ELSE Prefix(r.route) IN
+       /\ IsPrefix(pre, r.uri)
+       /\ JudgeOk(Demand(r.h, w, r.route, Drop(r.uri, Len(pre))), r.uri, r.q, JGot(r))
 
 TInit == /\ path = <<>>
          /\ l \in {1 + (c - 1) * Chunk : c \in 1..((Len(Rec) + Chunk - 1) \div Chunk)}
@@ -38,7 +48,9 @@ TNext == /\ l < Len(Rec) /\ l % Chunk # 0
 TSpec == TInit /\ [][TNext]_tvars
 
 \* every record agrees; a disagreeing record is printed for the driver, which stores it as the replay file
-AllAgree == RecOk(Rec[l]) \/ (PrintT(ToJson([rejected |-> <<Rec[l]>>])) /\ FALSE)
+AllAgree == Judged(Rec[l]) \/ (PrintT(ToJson([rejected |-> <<Rec[l]>>])) /\ FALSE)
+\* never fails: notes the records that the statement admits but the strict reading does not (PrintT is TRUE)
+DriftNote == (Judged(Rec[l]) /\ ~RecOk(Rec[l])) => PrintT(ToJson([drift |-> l]))
 \* the logged worlds, model-checked: world i when l = i (spread over the states so that no single state pays for all)
 TraceWorldsOk == l <= Len(TWorlds) =>
                     /\ WorldOk(TWorlds[l])
